@@ -341,6 +341,8 @@ def write_evidence(mod, prop, tier, seed, results, validated, v1, known_confirme
                              obligations=r.get("obligations"), discharged=r.get("discharged"),
                              error=r.get("error")) for r in results],
             stub_validation=v1,
+            undecided_refutation_only_subclaims=sorted(set(
+                "%s: %s" % (r["case"], k) for r in results for k, v in (r.get("labels") or {}).items() if v.get("undecided"))),
             known_findings_hit=sorted(known_confirmed),
             violations=[dict(case=c, label=l, replay=p) for c, l, p, _ in confirmed],
             harness_errors=harness_errors[:50],
